@@ -536,3 +536,64 @@ Fixpoint under_caller (rows : list jobrow) (fuel : nat) (j : jid) : bool :=
            | None => false
            end
   end.
+
+(* ====================================================================== *)
+(** * Decidable equalities used by the correspondence cases (harness)      *)
+(* ====================================================================== *)
+Definition opt_eqb {A} (e : A -> A -> bool) (a b : option A) : bool :=
+  match a, b with Some x, Some y => e x y | None, None => true | _, _ => false end.
+Fixpoint list_eqb {A} (e : A -> A -> bool) (a b : list A) : bool :=
+  match a, b with
+  | [], [] => true
+  | x :: a', y :: b' => e x y && list_eqb e a' b'
+  | _, _ => false
+  end.
+Definition lookup_eqb (a b : lookup) : bool := match a, b with LkCSE, LkCSE | LkULT, LkULT => true | _, _ => false end.
+Definition consult_eqb (a b : consult) : bool :=
+  match a, b with
+  | QNode x, QNode y => lookup_eqb x y
+  | FCall x, FCall y => lookup_eqb x y
+  | FEval, FEval => true
+  | _, _ => false
+  end.
+Definition cc_result_eqb (a b : cc_result) : bool :=
+  match a, b with
+  | CCOut r h t, CCOut r' h' t' => opt_eqb cval_eqb r r' && opt_eqb Z.eqb h h' && cr_eqb t t'
+  | CCPyError, CCPyError => true
+  | _, _ => false
+  end.
+Definition gc_result_eqb (a b : gc_result) : bool :=
+  match a, b with
+  | GHit v h t, GHit v' h' t' => cval_eqb v v' && opt_eqb Z.eqb h h' && cr_eqb t t'
+  | GMiss, GMiss => true
+  | GPyError, GPyError => true
+  | _, _ => false
+  end.
+(** the consultations the harness can observe on the real backend: the CSE query is inline SQL *)
+Definition observable (c : consult) : bool := match c with QNode LkCSE => false | _ => true end.
+
+Definition cc_case (prog : list stmt) (scope : cache_scope) (cv : check_valid) (al : option (list cache_result))
+           (ans : answers) (exp : cc_result) (exp_trace : list consult) : bool :=
+  match run_cc prog scope cv (option_map set_of al) ans with
+  | (r, tr) => cc_result_eqb r exp && list_eqb consult_eqb (filter observable tr) exp_trace
+  end.
+
+(** arguments of the check_cache call: scope, check_valid, and the allowed set by its four memberships *)
+Definition args_case (g : getcache_cfg) (jo : jobopts) (scope : cache_scope) (cv : check_valid)
+           (al : option (list bool)) : bool :=
+  match gc_args g jo with
+  | (s, v, a) =>
+      sc_eqb s scope && cv_eqb v cv &&
+      opt_eqb (list_eqb Bool.eqb) (option_map (fun f => [f CSE; f ULTIMATE; f SINGLE; f MISS]) a) al
+  end.
+
+Definition parent_eqb := opt_eqb jid_eqb.
+Definition row_eqb (a b : jobrow) : bool :=
+  jid_eqb (r_id a) (r_id b) && parent_eqb (r_parent a) (r_parent b) && eid_eqb (r_exec a) (r_exec b).
+Definition observed_eqb (a b : observed) : bool :=
+  match a, b with
+  | RetV x, RetV y => Z.eqb x y
+  | Raise x, Raise y => Z.eqb x y
+  | RaiseDryRun, RaiseDryRun | RetNone, RetNone | PyError, PyError => true
+  | _, _ => false
+  end.
